@@ -148,11 +148,15 @@ def _run_case(spec):
             cost_specs[extra] = getattr(pcost, extra)
         fold = bool(spec.get('fold_bn'))
         full = bool(spec.get('full_cost'))
-        example = tuple(torch.randn((1,) + s) for s in in_shapes)
+        # (the example used for shape propagation has 1..5 samples: costs depend on the architecture only)
+        nb = 1 + seed % 5 if seed % 3 else 1
+        example = tuple(torch.randn((nb,) + s) for s in in_shapes)
         kw = dict(cost=cost_specs, fold_bn=fold, discrete_cost=True, full_cost=full,
                   exclude_names=names, exclude_types=types)
-        if len(in_shapes) == 1:
+        if len(in_shapes) == 1 and seed % 3 == 0:
             kw['input_shape'] = in_shapes[0]
+        elif len(in_shapes) == 1:
+            kw['input_example'] = example[0]
         else:
             kw['input_example'] = example
         try:
